@@ -651,23 +651,23 @@ class DefaultCodec(Codec):
                     parent_index = merge_parent._output_keys
                     # noinspection PyProtectedMember
                     parent_data_source = merge_parent._parent_data_source
+                    # The parent may have been stored in several places since (also in the
+                    # staging directory of an on-disk partition that holds it as a value, which
+                    # goes away with that partition): prefer what is stored where this one goes
+                    for stored_source, stored_index in reversed(
+                        getattr(merge_parent, "_stored_indexes", [])
+                    ):
+                        if self._same_place(stored_source, data_source):
+                            parent_index = stored_index
+                            parent_data_source = stored_source
+                            break
                 else:
                     raise IOError(
                         "Could not merge partitions: parent is not "
                         "a PicklePartition or has never been serialized"
                     )
                 for k, v in parent_index.items():
-                    # Mark a reference to all values that come from parents. This is for storage
-                    # backends that do reference counting.
-                    data_source.reference(
-                        parent_data_source, v.content_key, v.content_key
-                    )
-
-                    index[k] = _ResultTypeAndContentKey(
-                        result_type=v.result_type,
-                        content_key=v.content_key,
-                        from_parent=True,
-                    )
+                    index[k] = self._inherit(data_source, parent_data_source, v)
 
             if isinstance(obj, DefaultCodec.PicklePartition):
                 # A partition that was read back from storage and is returned once more (by
@@ -676,14 +676,7 @@ class DefaultCodec(Codec):
                 for k, v in obj._index.items():
                     if v.from_parent:
                         # noinspection PyProtectedMember
-                        data_source.reference(
-                            obj._data_source, v.content_key, v.content_key
-                        )
-                        index[k] = _ResultTypeAndContentKey(
-                            result_type=v.result_type,
-                            content_key=v.content_key,
-                            from_parent=True,
-                        )
+                        index[k] = self._inherit(data_source, obj._data_source, v)
 
             # Layer current keys on top of parent's keys
             output_keys = dict()
@@ -718,6 +711,9 @@ class DefaultCodec(Codec):
                 # parent), so that a partition merged with this one inherits them as well
                 obj._output_keys = dict(index)
                 obj._parent_data_source = data_source
+                obj._stored_indexes = getattr(obj, "_stored_indexes", []) + [
+                    (data_source, dict(index))
+                ]
 
             # noinspection PyProtectedMember
             obj._index_bytes = DefaultCodec.PicklePartition._serialize_index(index)
@@ -729,6 +725,50 @@ class DefaultCodec(Codec):
             )
             return super().store(
                 data_source=data_source, key_override=index_key_override, obj=obj
+            )
+
+        @staticmethod
+        def _same_place(a: DataSource, b: DataSource) -> bool:
+            """Whether what is stored in one data source can be loaded from the other"""
+            return a is b or (
+                type(a) is type(b)
+                and getattr(a, "base_path", None) is not None
+                and getattr(a, "base_path", None) == getattr(b, "base_path", None)
+            )
+
+        def _inherit(
+            self,
+            data_source: DataSource,
+            src_data_source: DataSource,
+            entry: _ResultTypeAndContentKey,
+        ) -> _ResultTypeAndContentKey:
+            """
+            Index entry, in `data_source`, for a value that a partition takes over from a
+            partition stored in `src_data_source`.
+
+            """
+            if self._same_place(src_data_source, data_source):
+                # Mark a reference to all values that come from parents. This is for storage
+                # backends that do reference counting.
+                data_source.reference(
+                    src_data_source, entry.content_key, entry.content_key
+                )
+                content_key = entry.content_key
+            else:
+                # The value lives elsewhere (in another store, in the staging directory of an
+                # on-disk partition): what is stored here must be loadable from here
+                content_key = self._codec.store(
+                    entry.result_type,
+                    data_source,
+                    None,
+                    self._codec.load(
+                        entry.result_type, src_data_source, entry.content_key
+                    ),
+                )
+            return _ResultTypeAndContentKey(
+                result_type=entry.result_type,
+                content_key=content_key,
+                from_parent=True,
             )
 
         def encode(self, obj: Partition) -> bytes:
